@@ -120,3 +120,23 @@ Theorem C05_btor2_terminates_with_a_value : forall fuel S fail r,
 Proof. exact parse_btor2_safe. Qed.
 Print Assumptions C05_btor2_terminates_with_a_value.
 
+
+(* ------------------------------------------------------------------ *)
+(* Pre-allocation of the AIGER whole-file parsers (Prealloc.v).  `prealloc_ascii` / `prealloc_binary` are regenerated
+   from ascii.rs / binary.rs on every run (translator section `prealloc`, which also insists that the four crates contain
+   no other size-driven allocation site besides the reader's and writer's modelled ones): whatever counts the header
+   declares, the elements reserved before any item has been read are bounded by a constant — "regardless of the counts
+   the input merely declares" — and never exceed what was declared. *)
+From Flussab Require Import Prealloc.
+
+Theorem C05_aag_preallocation_bounded_regardless_of_declared_counts : forall h,
+  (sumN (prealloc_aag h) <= N.of_nat prealloc_sites * prealloc_cap /\
+   Forall (fun n => n <= prealloc_cap /\ n <= declared h) (prealloc_aag h))%N.
+Proof. exact prealloc_aag_bounded. Qed.
+Print Assumptions C05_aag_preallocation_bounded_regardless_of_declared_counts.
+
+Theorem C05_aig_preallocation_bounded_regardless_of_declared_counts : forall h,
+  (sumN (prealloc_aig h) <= N.of_nat prealloc_sites * prealloc_cap /\
+   Forall (fun n => n <= prealloc_cap /\ n <= declared h) (prealloc_aig h))%N.
+Proof. exact prealloc_aig_bounded. Qed.
+Print Assumptions C05_aig_preallocation_bounded_regardless_of_declared_counts.
